@@ -140,6 +140,10 @@ func (g *Group) render(sb *strings.Builder) {
 type Bin struct {
 	Op   string
 	L, R Expr
+	// GlueL renders no blank between the left operand and the operator
+	// ("6div 3"): legal XPath when the left operand ends in a digit, '.', ')'
+	// or ']' (the caller's business).
+	GlueL bool
 }
 
 // Prec is the XPath 1.0 binding strength of a binary operator.
@@ -188,7 +192,11 @@ func (b *Bin) render(sb *strings.Builder) {
 		}
 	}
 	paren(b.L, exprPrec(b.L) < p)
-	sb.WriteString(" " + b.Op + " ")
+	if b.GlueL {
+		sb.WriteString(b.Op + " ")
+	} else {
+		sb.WriteString(" " + b.Op + " ")
+	}
 	paren(b.R, exprPrec(b.R) <= p)
 }
 
